@@ -680,3 +680,9 @@ SUBCHECKS = [
         note='x / y / key / value callbacks that parse another (augmented or plain) dictionary through each entry point; optional earlier '
              'walk aborted by a raising callback; value writer that serialises another map'),
 ]
+
+# the same generated cases, several at a time, checked by threads that run at the same time (core.run_overlapping): per-call state
+# kept in a place two calls share shows only there
+SUBCHECKS.append(__import__('harness.core', fromlist=['overlapped']).overlapped(next(s for s in SUBCHECKS if s.name == 'b-canonical-tree-hash'), k=3, n=(30, 1000), name='two-threads-writer'))
+SUBCHECKS.append(__import__('harness.core', fromlist=['overlapped']).overlapped(next(s for s in SUBCHECKS if s.name == 'c-parsers-free-label-kinds'), k=3, n=(30, 1000), name='two-threads-parsers'))
+SUBCHECKS.append(__import__('harness.core', fromlist=['overlapped']).overlapped(next(s for s in SUBCHECKS if s.name == 'd-augmented'), k=3, n=(30, 1000), name='two-threads-augmented'))
